@@ -629,7 +629,9 @@ KINDS["partial"] = dict(module="Trace_Partial", shrink=None, describe=describe_p
 def run_C06(ctx):
     ctx.rule = ("Inputs: MC_PartialGen enumerates every policy of the expression universe (Depth1; thorough adds Depth2) x 13 "
                 "partial-environment shapes (unknown principal/action/resource/context, unknowns nested in context records and "
-                "sets, two unknowns, ignored parts, fully concrete). The harness runs the real x/exp/eval.PartialPolicy and "
+                "sets, two unknowns, ignored parts, fully concrete), and the conditions-loop family: policies with three conditions, "
+                "every ordered triple over bodies that partial evaluation drops, rewrites, keeps, fails on or ignores, four "
+                "when/unless patterns, both effects, under six shapes mixing unknown and ignored parts. The harness runs the real x/exp/eval.PartialPolicy and "
                 "records keep/residual. Trace_Partial then evaluates, with the TLA+ evaluator, the original and the residual under "
                 "EVERY completion of the unknowns drawn from candidate universes (entities for request positions, whole records "
                 "for the context, values of several kinds for nested unknowns) and checks the soundness predicate of "
@@ -638,7 +640,7 @@ def run_C06(ctx):
                        "an embedded partial-error node is interpreted as 'evaluation fails'",
                        "a forbid policy with an ignored part is not constrained by the statement"]
     q = ctx.quick
-    consts = "CONSTANT UseDepth2 = %s\nCONSTANT Stride = %d\n" % ("FALSE" if q else "TRUE", 3 if q else 1)
+    consts = "CONSTANT UseDepth2 = %s\nCONSTANT Stride = %d\nCONSTANT LoopStride = %d\n" % ("FALSE" if q else "TRUE", 3 if q else 1, 5 if q else 1)
     add_gen_exec_validate(ctx, "partial", "universe", "MC_PartialGen", ["mc/MC_PartialGen.tla"], cfg=GEN_CFG + consts,
                           min_cases=1000, timeout=7200)
     add_m3(ctx, "partial", "random", "partial", 2000 if q else 40000)
@@ -813,7 +815,11 @@ def run_C19(ctx):
     ctx.level = "exploration"
     ctx.rule = ("Recorded sessions: G goroutines share one PolicySet, EntityMap, request list and value list and perform random "
                 "read-only operations (Authorize, IsAuthorized, batch.Authorize, MarshalCedar/MarshalJSON of the set and of "
-                "policies, Get/All/Map, value accessors and encoders, EntityMap.MarshalJSON, policy accessors) in a binary built "
+                "policies, Get/All/Map, value accessors and encoders, EntityMap.MarshalJSON, policy accessors, batch.Authorize with "
+                "ignored request parts, eval.PartialPolicy on the shared policy trees under unknown / ignored parts, the "
+                "validator over the shared resolved schema (policies, entities, requests; strict and permissive), schema "
+                "MarshalCedar / MarshalJSON / Resolve; the shared set holds random policies and crafted ones with several "
+                "conditions of which partial evaluation rewrites some and keeps others) in a binary built "
                 "with -race. Every call/return is an event (goroutine, own sequence number, operation, observation); TLC "
                 "validates every event against spec/Concurrent.tla: authorizations against the Authz specification, the other "
                 "operations against their sequential result, snapshots (deep reflection digest of all shared inputs incl. "
@@ -843,7 +849,9 @@ def run_C19(ctx):
     ctx.sample(dict(stage="session0", kind="recorded concurrent call", events=first[30:33]))
     ctx.extra["race_reports"] = len(reports)
     ctx.extra["goroutine_plans"] = plan
-    res = vlib.tlc_validate(ctx, "sessions", "Trace_Concurrent", traces)
+    # depth=4: no re-validation of the events beyond the first 100 unexplained ones (the event itself is the detail,
+    # and an event cannot be judged without the header line and its goroutine's history)
+    res = vlib.tlc_validate(ctx, "sessions", "Trace_Concurrent", traces, depth=4)
     rdir = os.path.join(vlib.VERIF, "replays", "C19")
     for rep in reports:
         os.makedirs(rdir, exist_ok=True)
